@@ -145,6 +145,14 @@ def tail(path, n=6000):
         return ""
 
 
+def head(path, n=3500):
+    try:
+        with open(path, "rb") as f:
+            return f.read(n).decode("utf-8", "replace")
+    except OSError:
+        return ""
+
+
 def load_known():
     """KNOWN_FINDINGS.txt -> (open findings {(prop, probe): text}, fixed {(prop, probe): text})."""
     findings, fixed = {}, {}
@@ -180,9 +188,20 @@ def race_reports(shard_dir):
             blocks.append("WARNING: DATA RACE" + (part if end < 0 else part[:end]))
     dedup = {}
     for b in blocks:
-        frames = [l.strip() for l in b.splitlines() if l.startswith("  ") and "(" in l and not l.strip().startswith("/")]
-        lib = [f.split("(")[0] for f in frames if "go-art" in f]
-        key = tuple(sorted(set(lib[:2]))) or ("harness-only",)
+        # one stack per paragraph ("Write at ... by goroutine N:", "Previous read at ..."); the key is the
+        # innermost library frame of each of the two access stacks
+        stacks = []
+        for para in b.replace("WARNING: DATA RACE\n", "", 1).split("\n\n"):
+            head = para.strip().splitlines()[:1]
+            if not head or not ("by goroutine" in head[0] or "by main goroutine" in head[0]):
+                continue
+            if not (head[0].lstrip().startswith(("Write", "Read", "Previous", "Atomic"))):
+                continue
+            fr = [l.strip() for l in para.splitlines()[1:] if l.startswith("  ") and not l.strip().startswith("/")]
+            lib = [f[:-2] if f.endswith("()") else f for f in fr if "Clement-Jean/go-art" in f]
+            stacks.append(lib[0] if lib else None)
+        libs = [x for x in stacks if x]
+        key = tuple(sorted(set(libs))) or ("harness-only",)
         dedup.setdefault(key, b)
     return blocks, dedup
 
@@ -280,7 +299,7 @@ def run(prop, spec, tier, seed, replay, scratch, nproc, t0):
         if res is None or not res.get("done"):
             info = dict(dir=j["dir"], rc=j.get("rc"), mode=j["mode"], unit=j.get("unit"),
                         last_cases=tail(os.path.join(j["dir"], "cases.log"), 600),
-                        stderr=tail(os.path.join(j["dir"], "stderr"), 5000))
+                        stderr=head(os.path.join(j["dir"], "stderr"), 3500) + "\n[...]\n" + tail(os.path.join(j["dir"], "stderr"), 1500))
             if j.get("rc") in (124, 137) or "SIGQUIT" in info["stderr"][:4000]:
                 timeouts.append(info)
             else:
